@@ -137,6 +137,7 @@ func VerifH_handle4() {
 		stubReq4, stubErr4 = req, nil
 	}
 
+	ethFails = false
 	l.HandleMsg4(make([]byte, 300), oob, &net.UDPAddr{IP: net.IP(vnd.Bytes("src", 4)), Port: 68})
 
 	// frame condition behind the one-datagram analysis: handling a datagram leaves the
@@ -144,6 +145,7 @@ func VerifH_handle4() {
 	vnd.Assert(l.Interface.Index == bound && l.Interface.Name == "" && len(l.handlers) == nh, "C15 handling a datagram leaves the listener's interface binding as configured (no datagram influences where later replies leave)")
 
 	vnd.Assert(len(sent) <= 1, "C01 at most one reply per datagram")
+	vnd.Assert(len(sent) <= 1, "C15 a reply leaves by exactly one means (a link-level send that fails is not retried as an ordinary IP unicast, whose link-level destination ARP would choose)")
 	answerable := !parseFails && req.OpCode == dhcpv4.OpcodeBootRequest && mtKind == 1 &&
 		(mt == byte(dhcpv4.MessageTypeDiscover) || mt == byte(dhcpv4.MessageTypeRequest))
 	if !answerable {
